@@ -177,6 +177,16 @@ static int parse_cb(cfg_t *cfg, cfg_opt_t *opt, const char *value, void *result)
 {
 	int fail = cb_tick("parse", opt, ",\"arg\":" + jstr(value));
 	if (fail || !value) {
+		// a callback may have written to its result before it decides to refuse: the library must not have lent it the
+		// live value for that
+		if (fail && result) {
+			if (opt->type == CFGT_INT)
+				*(long *)result = -4242;
+			else if (opt->type == CFGT_FLOAT)
+				*(double *)result = -4242.5;
+			else if (opt->type == CFGT_BOOL)
+				*(cfg_bool_t *)result = (cfg_bool_t)7;
+		}
 		cfg_error(cfg, "vt: parse callback refuses value for '%s'", opt->name);
 		return 1;
 	}
@@ -212,6 +222,9 @@ static int parse_cb(cfg_t *cfg, cfg_opt_t *opt, const char *value, void *result)
 	default:
 		return 1;
 	}
+	// what a callback leaves in errno is its own business (one that used strtol()/strtod() on its way may leave ERANGE
+	// behind and still approve): only the return value is its verdict
+	errno = (strlen(value) & 1) ? ERANGE : ((strlen(value) & 3) == 0 ? EINVAL : 0);
 	return 0;
 }
 
